@@ -505,13 +505,15 @@ func (*ConfluentHeader) DecodeIndex(b []byte, maxLength int) ([]int, []byte, err
 	if maxLength > 0 && int(l) > maxLength { // index count is greater than expected
 		return nil, nil, ErrNotRegistered
 	}
-	index := make([]int, l)
-	for i := range index {
+	// Every index takes at least one byte, so the remaining input bounds how
+	// many indices can follow: never allocate more than that up front.
+	index := make([]int, 0, min(l, int64(len(r.b))))
+	for i := int64(0); i < l; i++ {
 		idx, err := binary.ReadVarint(br)
 		if err != nil {
 			return nil, nil, err
 		}
-		index[i] = int(idx)
+		index = append(index, int(idx))
 	}
 	return index, r.b, nil
 }
